@@ -70,6 +70,16 @@ func (w *c01World) deliver() bool {
 			}
 		}
 	}
+	if im, ok := m.(*wire.MsgInv); ok {
+		// a block inventory announces that block (and with it the chain below it)
+		for _, iv := range im.InvList {
+			if n, known := w.tree.byHash[iv.Hash]; known && iv.Type == wire.InvTypeBlock {
+				for _, below := range w.tree.chainTo(n) {
+					w.heard[below] = true
+				}
+			}
+		}
+	}
 	w.k.node.handleMessage(w.ctx, m)
 	w.pump()
 	return true
